@@ -139,6 +139,10 @@ def check(ctx: Ctx) -> None:
     from ..dsf import auto_memo_check
     ctx.rule('C14.d', 'no auto-discovered lazily filled cache of the classes in the anchored modules can be stale at the exit of a public method (dependencies = what the fill expression reads, incl. mutating calls on held sub-objects)', floor=3)
     auto_memo_check(ctx, 'C14.d', [FG])
+    from ..commit import check_family
+    check_family(ctx, 'C14.e', ['FadingSampleGenerator'], floor=2)
+    from ..idioms import check_escaping_not_mutated
+    check_escaping_not_mutated(ctx, 'C14.f', [c.name for c in ctx.model.module(FG).classes.values()], floor=2)
     # ------------------------------------------------------------------ C14.c
     ctx.rule('C14.c', 'DSF: per-ray phases follow the configured shape', floor=10)
     analyse_class(ctx, 'C14.c', JAKES, 'JakesSampleGenerator')
